@@ -58,6 +58,7 @@ structure Dispatch where
   state : Nat
   action : Option Action
   next : Nat
+  ok : Bool := true        -- the action completed (an EVT_FSM_TRANSITION notification was emitted)
   deriving DecidableEq, Repr
 
 structure St where
@@ -207,16 +208,16 @@ def act (s : St) (a : Action) (e : Nat) : St :=
   let s2 := if (a = .DT_2 || a = .AR_6) && altOf s a e then { s2 with eventQ := s2.eventQ ++ [19] } else s2
   let idle := r.2 == 1
   { s2 with fsm := r.2, kill := s2.kill || idle, closes := s2.closes + (if idle then 1 else 0),
-            log := ⟨e, s.fsm, some a, r.2⟩ :: s2.log }
+            log := ⟨e, s.fsm, some a, r.2, true⟩ :: s2.log }
 
 /-- `StateMachine.do_action`.  An undefined pair raises InvalidEventError before anything happens;
 a raising action is caught by `do_action`, which sets the kill flag and re-raises: in both cases
 the thread dies. -/
 def dispatch (s : St) (e : Nat) : St :=
   match lookup Spec.Ps38.table e s.fsm with
-  | none => { s with dead := true, log := ⟨e, s.fsm, none, s.fsm⟩ :: s.log }
+  | none => { s with dead := true, log := ⟨e, s.fsm, none, s.fsm, false⟩ :: s.log }
   | some a =>
-    if fatal s a then { s with dead := true, kill := true, log := ⟨e, s.fsm, some a, s.fsm⟩ :: s.log }
+    if fatal s a then { s with dead := true, kill := true, log := ⟨e, s.fsm, some a, s.fsm, false⟩ :: s.log }
     else act s a e
 
 /-- phase B of an iteration -/
